@@ -441,6 +441,10 @@ def judge(res, h):
     # failed unwinding assertions and MODEL bounds alone mean "could not decide" (they only guard the soundness of SUCCESS)
     hard = [o for o in real if o['status'] != 'SUCCESS' and o['class'] not in ('unwind', 'model')]
     soft = [o for o in real if o['status'] != 'SUCCESS' and o['class'] in ('unwind', 'model')]
+    if h.get('model_bound_ok'):
+        # the harness is a declared bounded stand-in whose bound IS the container model's capacity: paths that exceed it are cut
+        # (assume after the MODEL assertion); the failed MODEL obligation is the statement of that bound, not an undecided run
+        soft = [o for o in soft if o['class'] != 'model']
     if soft and not hard:
         raise Undecided('unwinding assertion / model bound failed (bound too small): ' + soft[0]['name'])
     floor = h.get('floor', 1)
@@ -463,21 +467,32 @@ def trace_inputs(trace):
     element assignments - used to publish the object's bytes under the parameter's name as well."""
     vals = {}
     last_dyn = None
+    dyn = {}
     for st in trace or []:
         if st.get('stepType') != 'assignment':
             continue
         lhs = st.get('lhs', '')
+        v = st.get('value', {})
         md = re.fullmatch(r'(dynamic_object(?:\$\d+)?)\[(\d+)l?\]', lhs)
         if md:
             last_dyn = md.group(1)
+            iv = parse_int(v.get('data'))
+            if iv is not None:
+                dyn.setdefault(last_dyn, {})[int(md.group(2))] = iv
+        elif re.fullmatch(r'dynamic_object(?:\$\d+)?', lhs) and 'elements' in v:
+            ints = [parse_int(e.get('value', {}).get('data')) for e in v['elements']]
+            if ints and all(i is not None for i in ints):
+                last_dyn = lhs
+                dyn[lhs] = dict(enumerate(ints))
         ma = re.fullmatch(r'\(const void \*\)(\w+)_wrapper', lhs)
         if ma and last_dyn:
-            vals['__alias__' + ma.group(1)] = last_dyn
+            # snapshot = the object's contents when it is bound to the parameter, i.e. the INPUT (pre-state)
+            d = dyn.get(last_dyn, {})
+            vals['__snap__' + ma.group(1)] = [d.get(i, 0) for i in range(max(d) + 1)] if d else []
             last_dyn = None
             continue
         if lhs.startswith('__CPROVER') or 'return_value' in lhs and 'nondet' not in lhs:
             continue
-        v = st.get('value', {})
         data = v.get('data')
         if data is None and 'members' not in v and 'elements' not in v:
             continue
@@ -572,8 +587,8 @@ def simplify_inputs(ce):
         n = max(d) + 1
         out[name] = [d.get(i, 0) for i in range(n)]
     for k, v in ce.items():
-        if k.startswith('__alias__') and v in out:
-            out[k[len('__alias__'):]] = out[v]
+        if k.startswith('__snap__') and v:
+            out[k[len('__snap__'):]] = v
     for k in list(scal):   # dfcc renames wrapper parameters to <p>_wrapper
         if k.endswith('_wrapper'):
             scal[k[:-8]] = scal[k]
@@ -611,7 +626,7 @@ def native_replay(unit, res, path, doc, scratch):
     runs, reproduced = [], False
     for inp in sorted(glob.glob(path + '.inputs*')):
         rc, so, dt, to = run_nolimit([exe, inp, res['harness']], rd, 120)
-        rep = (('REPRODUCED' in so and 'NOT-REPRODUCED' not in so) or ('ERROR: AddressSanitizer' in so) or ('runtime error' in so))
+        rep = (('REPRODUCED' in so and 'NOT-REPRODUCED' not in so) or ('ERROR: AddressSanitizer' in so))
         runs.append({'inputs': os.path.basename(inp), 'exit': rc, 'output': so[-4000:], 'reproduced': rep})
         if rep:
             reproduced = True
@@ -635,9 +650,11 @@ def build_native_lib(scratch):
         srcs = []
         for root, _, files in os.walk(os.path.join(REPO, 'src', 'pop')):
             rel = os.path.relpath(root, os.path.join(REPO, 'src', 'pop'))
-            if rel == 'c' or rel.startswith('c/') or rel.startswith('storage/adaptors'):
+            if rel == 'c' or rel.startswith('c/'):
                 continue
             for fn in files:
+                if fn in ('leveldb_impl.cpp', 'rocksdb_impl.cpp'):   # optional back ends (WITH_LEVELDB / WITH_ROCKSDB are off)
+                    continue
                 if fn.endswith('.cpp') and fn != 'Tracy.cpp':
                     srcs.append(os.path.join(root, fn))
         flags = ['-std=c++14', '-O1', '-g', '-fsanitize=address,undefined', '-fno-omit-frame-pointer', '-DFMT_HEADER_ONLY=1',
